@@ -353,10 +353,17 @@ fn rt(workers: usize) -> tokio::runtime::Runtime {
 /// `conc <kind> | svc=… r=d… | svc=… r=d… | …` – one part per concurrent connection
 pub fn conc_op(kind: &str, conns: &[&str]) -> Option<(String, String)> {
     let mut specs: Vec<(Vec<Svc>, Vec<u8>, usize)> = vec![];
+    // `after=<j>`: this client connects before all the others but stays silent until
+    // connection j has received everything it is owed
+    let mut after: Vec<Option<usize>> = vec![];
     for c in conns {
         let f: Vec<&str> = c.split(' ').filter(|s| !s.is_empty()).collect();
         let svc = p_list(field("svc", &f), Svc::parse)?;
         let evs = p_list(field("r", &f), ReadEv::parse)?;
+        after.push(match field("after", &f) {
+            "" => None,
+            j => Some(j.parse::<usize>().ok()?),
+        });
         let mut data = vec![];
         for e in evs {
             if let ReadEv::Data(d) = e {
@@ -422,10 +429,41 @@ pub fn conc_op(kind: &str, conns: &[&str]) -> Option<(String, String)> {
     });
     // the clients: plain blocking sockets on their own threads, sending in pieces
     let mut handles = vec![];
+    // the silent clients connect first, one after the other, so that they are at the head of
+    // the accept queue
+    let mut early: Vec<Option<StdStream>> = after
+        .iter()
+        .map(|a| a.and_then(|_| StdStream::connect(addr).ok()))
+        .collect();
+    let finished: Arc<(Mutex<Vec<bool>>, std::sync::Condvar)> =
+        Arc::new((Mutex::new(vec![false; specs.len()]), std::sync::Condvar::new()));
     for (i, (svc, data, expect)) in specs.iter().cloned().enumerate() {
         let scripts = scripts.clone();
+        let pre = early[i].take();
+        let wait_for = after[i];
+        let finished = finished.clone();
         handles.push(std::thread::spawn(move || -> Option<(SocketAddr, Vec<u8>)> {
-            let mut s = StdStream::connect(addr).ok()?;
+            let done = |r: Option<(SocketAddr, Vec<u8>)>| {
+                let (m, cv) = &*finished;
+                m.lock().unwrap()[i] = true;
+                cv.notify_all();
+                r
+            };
+            let mut s = match pre {
+                Some(s) => s,
+                None => match StdStream::connect(addr) {
+                    Ok(s) => s,
+                    Err(_) => return done(None),
+                },
+            };
+            if let Some(j) = wait_for {
+                let (m, cv) = &*finished;
+                let mut g = m.lock().unwrap();
+                while !g.get(j).copied().unwrap_or(true) {
+                    g = cv.wait(g).unwrap();
+                }
+            }
+            let r = (|| -> Option<(SocketAddr, Vec<u8>)> {
             let local = s.local_addr().ok()?;
             scripts.lock().unwrap().insert(local, svc.into_iter().collect());
             s.set_read_timeout(Some(Duration::from_millis(3000))).ok()?;
@@ -457,6 +495,8 @@ pub fn conc_op(kind: &str, conns: &[&str]) -> Option<(String, String)> {
                 got.extend(&buf[..n]);
             }
             Some((local, got))
+            })();
+            done(r)
         }));
     }
     let mut outs = vec![];
